@@ -34,6 +34,7 @@ Print Assumptions C09_member_readback.
 Theorem C09_fingerprints : forall (J : Type) (jenc : J -> ustring) sha (r : mresult J) k,
   mm_fingerprints (member_manifest J jenc sha r) k = option_map sha (fst (run_ops sha (member_ops J jenc r)) k).
 Proof. intros. apply fingerprints_final. Qed.
+Print Assumptions C09_fingerprints.
 
 (** the run manifest: status complete; all_valid / all_completed / error_count are the conjunctions / the sum *)
 Theorem C09_run_manifest : forall (J : Type) (jenc : J -> ustring) sha (rs : list (mresult J)),
